@@ -247,7 +247,8 @@ func (set variableSet) add(other variableSet) {
 }
 
 // variableSets remembers the variables below every node visited so far, so that a node is visited once while
-// the index is built however many nodes reach it.
+// the index is built however many nodes reach it. A node is remembered before its children are visited: the walk
+// ends on a graph that is not a tree as well (a stored knowledge base whose stream wires a variable to itself).
 type variableSets map[Node]variableSet
 
 // variablesBelow returns the variables this expression reaches through its operands.
@@ -261,11 +262,11 @@ func (e *Expression) variablesBelow(sets variableSets) variableSet {
 		return set
 	}
 	set := make(variableSet)
+	sets[e] = set
 	set.add(e.LeftExpression.variablesBelow(sets))
 	set.add(e.RightExpression.variablesBelow(sets))
 	set.add(e.SingleExpression.variablesBelow(sets))
 	set.add(e.ExpressionAtom.variablesBelow(sets))
-	sets[e] = set
 
 	return set
 }
@@ -282,11 +283,11 @@ func (e *ExpressionAtom) variablesBelow(sets variableSets) variableSet {
 		return set
 	}
 	set := make(variableSet)
+	sets[e] = set
 	set.add(e.Variable.variablesBelow(sets))
 	set.add(e.ExpressionAtom.variablesBelow(sets))
 	set.add(e.FunctionCall.variablesBelow(sets))
 	set.add(e.ArrayMapSelector.variablesBelow(sets))
-	sets[e] = set
 
 	return set
 }
@@ -302,10 +303,10 @@ func (e *Variable) variablesBelow(sets variableSets) variableSet {
 		return set
 	}
 	set := make(variableSet)
+	sets[e] = set
 	set[e] = struct{}{}
 	set.add(e.Variable.variablesBelow(sets))
 	set.add(e.ArrayMapSelector.variablesBelow(sets))
-	sets[e] = set
 
 	return set
 }
@@ -321,8 +322,8 @@ func (e *FunctionCall) variablesBelow(sets variableSets) variableSet {
 		return set
 	}
 	set := make(variableSet)
-	set.add(e.ArgumentList.variablesBelow(sets))
 	sets[e] = set
+	set.add(e.ArgumentList.variablesBelow(sets))
 
 	return set
 }
@@ -338,10 +339,10 @@ func (e *ArgumentList) variablesBelow(sets variableSets) variableSet {
 		return set
 	}
 	set := make(variableSet)
+	sets[e] = set
 	for _, argument := range e.Arguments {
 		set.add(argument.variablesBelow(sets))
 	}
-	sets[e] = set
 
 	return set
 }
@@ -357,8 +358,8 @@ func (e *ArrayMapSelector) variablesBelow(sets variableSets) variableSet {
 		return set
 	}
 	set := make(variableSet)
-	set.add(e.Expression.variablesBelow(sets))
 	sets[e] = set
+	set.add(e.Expression.variablesBelow(sets))
 
 	return set
 }
